@@ -119,6 +119,18 @@ fn oracles(out: &mut Out, thorough: bool, rng: &mut Rng) {
                 if encode_values(format, 3, 0, &rgba, w * h, 1, 9).as_ref() != Some(&reference) { println!("IMPL-VIOLATION encoded bytes depend on the image shape / row pitch: {name}"); }
             }
         }
+        // ---- (d) wide rows (beyond the 512-pixel / 4096-byte staging buffers) in a row-pitched view give the bytes of the contiguous image
+        for (ci, &(ch, p)) in [(3usize, 0usize), (2, 0), (3, 2), (0, 1), (2, 1)].iter().enumerate() {
+            for &ww in &[600u32, 1400, if thorough { 4100 } else { 1030 }] {
+                let hh = if bi { 4u32 } else { 3 };
+                let cnt = CHANNELS[ch].count() as usize;
+                let values: Vec<u32> = (0..(ww * hh) as usize * cnt).map(|i| { let x = ((i * 31 + ci * 7 + fi) % 256) as u32; match p { 0 => x, 1 => x * 257, _ => (x as f32 / 255.0).to_bits() } }).collect();
+                let a = encode_values(format, ch, p, &values, ww, hh, 0);
+                let b = encode_values(format, ch, p, &values, ww, hh, 4 + (ci % 3) * 4);
+                if a.is_none() || a != b { println!("IMPL-VIOLATION encoded bytes depend on the row pitch (wide rows): {name} {ww}x{hh} from {:?} {:?}", CHANNELS[ch], PRECS[p]); }
+                out.count("oracle_wide_pitch");
+            }
+        }
         // ---- (b) quantisation bound at U8 / U16 / F32 input for UNORM fields: decode(encode(x)) within half a step
         let step: Option<f64> = match name { "B5G6R5_UNORM" => Some(1.0 / 31.0), "B5G5R5A1_UNORM" => Some(1.0 / 31.0), "B4G4R4A4_UNORM" | "A4B4G4R4_UNORM" => Some(1.0 / 15.0),
             "R10G10B10A2_UNORM" => Some(1.0 / 1023.0), "R8G8B8A8_SNORM" | "R8_SNORM" | "R8G8_SNORM" => Some(1.0 / 254.0), "R16_SNORM" | "R16G16_SNORM" | "R16G16B16A16_SNORM" => Some(1.0 / 65534.0),
